@@ -501,6 +501,61 @@ class Engine:
                         return self.binop(v[1], b_ if flip else a2, a2 if flip else b_, 'bool')
                     if kn[0] == 'ne' and b_[1] in kn[1] and v[1] in ('Eq', 'Ne'):
                         return C(int(v[1] == 'Ne'), 'bool')
+            # parity and small-range knowledge about an unsigned value loaded from an atomic: `x % 2` / `x & 1` is 0 or 1, and
+            # `x >= k` holds once every smaller value is excluded (x != 0 and x even => x >= 2)
+            def parity_of(x_):
+                for t_ in (('t', 'Rem', (x_, C(2, x_[2] if is_int_const(x_) else 'u16'))), ('t', 'BitAnd', (x_, C(1, 'u16')))):
+                    for key_, kn_ in st.known.items():
+                        if key_[0] == 't' and key_[1] == t_[1] and key_[2][0] == x_ and is_int_const(key_[2][1]) and key_[2][1][1] == t_[2][1][1]:
+                            if kn_[0] == 'eq' and kn_[1] in (0, 1):
+                                return kn_[1]
+                            if kn_[0] == 'ne' and set(kn_[1]) & {0, 1}:
+                                rest_ = {0, 1} - set(kn_[1])
+                                if len(rest_) == 1:
+                                    return rest_.pop()
+                        # ... or the comparison `x % 2 == c` itself was branched on
+                        if key_[0] == 't' and key_[1] in ('Eq', 'Ne') and len(key_[2]) == 2 and is_int_const(key_[2][1]) and key_[2][1][1] in (0, 1) \
+                                and key_[2][0][0] == 't' and key_[2][0][1] == t_[1] and key_[2][0][2][0] == x_ and is_int_const(key_[2][0][2][1]) \
+                                and key_[2][0][2][1][1] == t_[2][1][1]:
+                            tv_ = True if (kn_[0] == 'eq' and kn_[1] == 1) or (kn_[0] == 'ne' and set(kn_[1]) == {0}) else \
+                                False if (kn_[0] == 'eq' and kn_[1] == 0) or (kn_[0] == 'ne' and set(kn_[1]) == {1}) else None
+                            if tv_ is not None:
+                                holds = tv_ if key_[1] == 'Eq' else not tv_
+                                return key_[2][1][1] if holds else 1 - key_[2][1][1]
+                return None
+            if v[1] in ('Eq', 'Ne') and is_int_const(r_) and r_[1] in (0, 1) and l_[0] == 't' and l_[1] in ('Rem', 'BitAnd') and \
+                    is_int_const(l_[2][1]) and l_[2][1][1] == (2 if l_[1] == 'Rem' else 1):
+                p_ = parity_of(l_[2][0])
+                if p_ is not None:
+                    return C(int((p_ == r_[1]) == (v[1] == 'Eq')), 'bool')
+            if v[1] in ('Ge', 'Gt') and is_int_const(r_) and 0 < r_[1] <= 16 and l_[0] == 't' and 'Atomic::<u' in fmt(l_)[:80]:
+                kmin = r_[1] if v[1] == 'Ge' else r_[1] + 1
+                kn = st.known.get(l_)
+                excl = set(kn[1]) if kn and kn[0] == 'ne' else set()
+                p_ = parity_of(l_)
+                if all(c_ in excl or (p_ is not None and c_ % 2 != p_) for c_ in range(kmin)):
+                    return C(1, 'bool')
+            # an even unsigned value is never the all-ones maximum: `x + 1` does not overflow (checked_add(1) on an even generation)
+            if v[1] in ('Gt', 'Ge') and is_int_const(r_) and l_[0] == 't' and l_[1] == 'Add' and len(l_[2]) == 2 and is_int_const(l_[2][1]) and \
+                    l_[2][1][1] == 1 and r_[1] in (255, 65535, 4294967295, 18446744073709551615) and v[1] == 'Gt' and parity_of(l_[2][0]) == 0:
+                return C(0, 'bool')
+            # the path already branched on the same comparison, or on its complement, of the same two terms
+            # (`if a == b { return }` ... `debug_assert!(a != b)`)
+            comp = {'Eq': 'Ne', 'Ne': 'Eq', 'Lt': 'Ge', 'Ge': 'Lt', 'Le': 'Gt', 'Gt': 'Le'}
+            swap = {'Eq': 'Eq', 'Ne': 'Ne', 'Lt': 'Gt', 'Gt': 'Lt', 'Le': 'Ge', 'Ge': 'Le'}
+            for op_, a_, b_, neg in ((v[1], l_, r_, False), (swap[v[1]], r_, l_, False), (comp[v[1]], l_, r_, True), (swap[comp[v[1]]], r_, l_, True)):
+                kn = st.known.get(('t', op_, (a_, b_)))
+                if kn is None:
+                    continue
+                truth = None
+                if kn[0] == 'eq' and kn[1] in (0, 1):
+                    truth = bool(kn[1])
+                elif kn[0] == 'ne' and set(kn[1]) == {0}:
+                    truth = True
+                elif kn[0] == 'ne' and set(kn[1]) == {1}:
+                    truth = False
+                if truth is not None:
+                    return C(int(truth != neg), 'bool')
         return v
 
     def binop(self, op, l, r, tstr):
@@ -757,6 +812,12 @@ class Engine:
 
     def add_cond(self, st, term, op, val, site):
         """returns False when the new atom contradicts what the path already knows"""
+        if term[0] == 't' and term[1] in ('Eq', 'Ne', 'Lt', 'Le', 'Gt', 'Ge', 'Not') and term not in st.known:
+            rv = self.refine(st, term)
+            if is_int_const(rv):
+                # what the path knows already decides this comparison (its complement was branched on, the operands are pinned,
+                # parity excludes it): consistent -> nothing new to record, contradictory -> the branch is infeasible
+                return (rv[1] == val) if op == '==' else (rv[1] not in val)
         kn = st.known.get(term)
         if op == '==':
             if kn:
